@@ -1,13 +1,13 @@
 CONSTANTS
- Producers = {"p1","p2","p3"}
+ Producers = {"p1","p2"}
  K = 2
- Shapes <- ShMax
- MaxFaults = 1
+ Shapes <- ShOk1
+ MaxFaults = 0
  MaxCrashes = 1
  MaxIdxLoss = 0
  SyncFlush = TRUE
  InlineAt = 0
- Interval = 2
+ Interval = 1
  MBs = {80}
  FixRestore = TRUE
  FixPublish = TRUE
@@ -23,8 +23,9 @@ CONSTANTS
  DevOrphanAlwaysSkipped = FALSE
  DevNoFlushOnAck = FALSE
  DevTolerateLostIdx = FALSE
- DevRestoreCountsOrphan = FALSE
+ DevRestoreCountsOrphan = TRUE
 INIT Init
 NEXT Next
+VIEW View
 CHECK_DEADLOCK FALSE
-INVARIANTS EmitSched C01_AckedDurable C02_Unique C02_Monotone C02_NoGap C02_BaseIsStored C05_Monotone C05_NotAhead C06_NoHide C06_NoReuse
+INVARIANTS C05_NotAhead
